@@ -30,9 +30,24 @@ PROPS = {
         'level_text': 'Verus proves on the real tokenizer / re-nesting / serialiser bodies: accepted => flatten(parsed) == strict independent tokenizer tok(bytes) (pushes little-endian, truncated push => rejected, unknown opcode => rejected), no conditional opcode left outside a closed block, serialise(parsed) == input bytes (lemmas L1, L2), push-prefix helper minimal for every length 1..2^32-1 and parses back to one push. All lengths, all nesting depths.',
         'level_note': TB,
     },
+    'C03': {
+        'units': {
+            'sighash_forkid': ['*'],
+            'tx_wire': ['TxOut::to_bytes_impl'],
+            'script_ser': ['Script::to_bytes', 'Script::script_bits_to_bytes'],
+        },
+        'kani': [
+            {'harness': 'write_varint_vec_all_u64', 'validates': 'shim contract VarIntWriter for Vec<u8>::write_varint == varint(n), all u64'},
+        ],
+        'assumptions': [SHA],
+        'design_ref': 'DESIGN.md section 4 C03',
+        'level_text': 'Verus proves on the real sighash_bip143 / hash_inputs / hash_sequence / hash_outputs bodies that the returned preimage is byte-for-byte preimage_forkid(contents, index, flag, subscript, value) as written from the replay-protected sighash specification (field order, little-endian widths, the three midstate hashes zeroed exactly under the specified flag conditions), for every transaction, index, value and the six FORKID flags, and that Err is returned exactly for an out-of-range input index or SINGLE without a matching output.',
+        'level_note': TB + ' sha256d is uninterpreted; the signing sentence of the property (signature verifies) is decided under C05.',
+    },
     'C04': {
         'units': {
             'tx_cache': ['*'],
+            'sighash_forkid': ['Transaction::hash_inputs', 'Transaction::hash_sequence', 'Transaction::hash_outputs', 'Transaction::sighash_bip143'],
         },
         'assumptions': [SHA],
         'design_ref': 'DESIGN.md section 4 C04',
@@ -42,7 +57,6 @@ PROPS = {
 }
 
 NOT_CLAIMED = {
-    'C03': 'not reached yet',
     'C05': 'not reached yet',
     'C06': 'not reached yet',
     'C07': 'not reached yet',
